@@ -501,7 +501,7 @@ func main() {
 		Rule: "flat: random nested maps (dot-free non-empty keys, no empty sub-maps, 14 leaf kinds) flattened, rebuilt and flattened again, each step DeepEqual to a reference; " +
 			"jread: random JSON objects (string leaves over quotes/backslashes/control/non-ASCII/U+2028/astral, number literals, skipped bool/null/array leaves) rendered by encoding/json and by a second renderer (whitespace, \\uXXXX, surrogate pairs, \\/) – JSONToPlainStringMap vs Decoder+UseNumber; " +
 			"cfg: ReadJSON+flatten+rebuild vs encoding/json; jexh/jrt: both writers – json.Valid, decodes to the reference nested map, reads back to the same flat map; " +
-			"load: fsi18loader.Load on random directory layouts (memfs/diskfs, 1…300 json files, ignored files, nil/real scope, GOMAXPROCS 1/2/4/16, pool size 1…NumCPU, yields/sleeps inside ReadDir/ReadFile, concurrent Translate callers, single injected read failures) – Load()==nil implies every key translates to its value; " +
+			"load: fsi18loader.Load on random directory layouts (memfs/diskfs, 1…300 json files and, one layout in forty, more files than the file loop's channels hold (1001…1600), ignored files, nil/real scope, GOMAXPROCS 1/2/4/16, pool size 1…NumCPU, yields/sleeps inside ReadDir/ReadFile, concurrent Translate callers, single injected read failures) – Load()==nil implies every key translates to its value; " +
 			"storm: 100 repeated loads of one 1…4-file layout with pool size 1 or 2 at GOMAXPROCS 2/4 (producer, consumer and completion signal meet within microseconds). " +
 			"distinct = distinct documents/maps/layouts; non-trivial = at least one leaf / two files",
 		Assumptions: []string{
@@ -531,7 +531,7 @@ func main() {
 			}
 		},
 		Finish: func(t *sup.Totals) string {
-			for _, k := range []string{"flat_maps_nested", "jread_leaves_needing_decoding", "cfg_docs", "jexh_maps", "jrt_entries_needing_escapes", "write_outputs_checked", "load_ok_loads", "load_keys_checked", "load_failures_reported", "load_concurrent_translate_hits", "storm_loads", "noise_yields"} {
+			for _, k := range []string{"flat_maps_nested", "jread_leaves_needing_decoding", "cfg_docs", "jexh_maps", "jrt_entries_needing_escapes", "write_outputs_checked", "load_ok_loads", "loads_of_more_files_than_the_loop_channels_hold", "load_keys_checked", "load_failures_reported", "load_concurrent_translate_hits", "storm_loads", "noise_yields"} {
 				if t.Obs[k] == 0 {
 					return "monitor observed nothing for " + k
 				}
